@@ -167,6 +167,38 @@ def run(ctx: Ctx) -> Result:
                 res.violations.append({'input': {'probe': pname, 'nesting': list(nest), 'cfg': cfg.line(), 'cache': vmrun.cache_str(cache, False), 'script': b.hex()},
                                        'expected': f'same observable as at top level: {top[pname]}', 'observed': str(obs),
                                        'how_to_run': './check C09 --replay <this file>'})
+    # the call budget is one budget at every nesting level: a probe that measures how many nested activations are still
+    # possible at its position must find callstack_limit minus the calls the enclosing constructs themselves used
+    LIM = 11
+    inner = op('TRY_EXCEPT') + u2(len(push(b'a') + op('CALL') + b'\x09')) + push(b'a') + op('CALL') + b'\x09' + u2(0)
+    budget_probe = op('DEPTH') + wr(b'Y') + op('DEF') + b'\x09' + u2(len(inner)) + inner + op('CALL') + b'\x09' + op('DEPTH') + wr(b'Z')
+    bcases = []
+    for nest in nestings:
+        b = budget_probe
+        for cname in reversed(nest):
+            b = CONTEXTS[cname](b)
+        if len(b) > 60000: continue
+        bcases.append((nest, b))
+    bouts = []
+    def work_b():
+        for nest, b in bcases:
+            bouts.append(vmrun.run_impl(vmrun.Cfg(call_limit=LIM), {}, b))
+    vmrun.in_big_thread(work_b)
+    for (nest, b), o in zip(bcases, bouts):
+        res.note_case(('budget', nest))
+        f = vmrun.fields(o)
+        cachef = dict(e.split('=', 1) for e in f.get('cache', '-').split(';') if '=' in e)
+        used = sum(1 for c in nest if c in ('DEF/CALL', 'EVAL', 'MERKLEVAL', 'TAPROOT'))
+        want = LIM - used
+        try:
+            y = int.from_bytes(bytes.fromhex(cachef['b59'][2:]), 'big', signed=True); z = int.from_bytes(bytes.fromhex(cachef['b5a'][2:]), 'big', signed=True)
+            got = z - y
+        except Exception:
+            got = 'no-result:' + f['status']
+        if got != want and len(res.violations) < 10:
+            res.violations.append({'input': {'probe': 'remaining call budget', 'nesting': list(nest), 'cfg': vmrun.Cfg(call_limit=LIM).line(), 'cache': '-', 'script': b.hex()},
+                                   'expected': f'{want} nested activations possible (callstack_limit {LIM} minus {used} used by the enclosing constructs)', 'observed': str(got),
+                                   'how_to_run': './check C09 --replay <this file>'})
     # "a signature-extension plugin runs exactly once before every signature-related instruction"
     for (pname, cfg, cache, nest, b_, keys), o in zip(cases, outs):
         if pname.startswith('sigext:') and nest == ():
